@@ -105,13 +105,20 @@ def check_overflow(res, limit=1e100, spec=None):
         bad = np.nonzero(~np.isfinite(v))[0]
         if bad.size:
             first_bad_stock = min(first_bad_stock, int(bad[0]))
+    cands = []
     for pop in res.model.pops:
         for par in pop.pars:
             pv = np.asarray(par.vals, dtype=float)
             bad = np.nonzero(~np.isfinite(pv))[0]
             if bad.size and int(bad[0]) <= first_bad_stock and (par.links or getattr(par, "_is_dynamic", False)):
-                if not _explained_by_function_domain(res, spec, pop, par, int(bad[0])):
-                    return  # the engine produced a non-finite parameter from finite reported inputs: inside the domain, to be judged
+                cands.append((int(bad[0]), pop, par))
+    if cands:
+        # the EARLIEST non-finite parameters are the origin; later ones are consequences of the stocks they spoiled
+        i0 = min(c[0] for c in cands)
+        if True:
+            for ti_, pop, par in [c for c in cands if c[0] == i0]:
+                if not _explained_by_function_domain(res, spec, pop, par, ti_):
+                    continue
                 raise Discard("a parameter is NaN or infinite while all stocks are still finite (function outside its domain, e.g. x/0; parameters are decided by C06)")
     for pop, c in all_comps(res):
         v = np.asarray(c.vals, dtype=float)
